@@ -124,7 +124,7 @@ def run_case(spec, workdir):
         for t in list(toast.generate_tiles(2, bottom_only=False))[:: 5]:
             lo, la = toast.toast_tile_get_coords(t)
             grids.append((lo[::4, ::4], la[::4, ::4]))
-    for (ny, nx) in spec["shapes"]:
+    for si, (ny, nx) in enumerate(spec["shapes"]):
         C = spec["colour"]
         ident = np.arange(ny * nx, dtype=np.int64).reshape(ny, nx)
         if C:
@@ -132,6 +132,11 @@ def run_case(spec, workdir):
         else:
             data = ident
         f = fn(data)
+        if si % 2 == 0:
+            # samplers of the OTHER layouts for a map of the same shape are built (and one of them used) after this one and
+            # before it is used: a sampler must not depend on what else exists in the process
+            others = [getattr(samplers, v)(data) for v in VARIANTS if v != variant]
+            R.choice(others)(np.zeros((1, 2)), np.zeros((1, 2)))
         inputs = [gen_inputs(R, rng, spec["npts"], ny, nx, False)] + grids
         for (lon, lat) in inputs:
             out = np.asarray(f(lon, lat))
